@@ -59,10 +59,11 @@ type Explorer struct {
 	work          [][]int
 	active        int
 	fnInfos       sync.Map
-	feasCache sync.Map
+	feasCache     sync.Map
 	Paths         []PathResult
 	Failures      []*Failure
 	Reached       map[string]*Witness
+	ReachedAll    map[string][]*Witness
 	ReachWanted   map[string]bool
 	AssertsProved map[string]int
 	AssertsFailed map[string]int
@@ -96,7 +97,7 @@ func NewExplorer(p *Program, harness string) (*Explorer, error) {
 		return nil, fmt.Errorf("harness %s not found", harness)
 	}
 	x := &Explorer{P: p, Harness: harness, Fn: fn, Workers: 8, Unwind: 64, StepCap: 5_000_000, MaxPaths: 200000,
-		Reached: map[string]*Witness{}, ReachWanted: map[string]bool{}, AssertsProved: map[string]int{}, AssertsFailed: map[string]int{},
+		Reached: map[string]*Witness{}, ReachedAll: map[string][]*Witness{}, ReachWanted: map[string]bool{}, AssertsProved: map[string]int{}, AssertsFailed: map[string]int{},
 		FnSteps: map[string]int64{}, Models: map[string]int{}, Assumptions: map[string]bool{}, KnownHits: map[string]int{}}
 	x.cond = sync.NewCond(&x.mu)
 	return x, nil
